@@ -135,11 +135,13 @@ def sentences(got, data, T):
     # a name can be default-trusted for one node kind and untrusted for another; rows do not say which kind they are,
     # so the per-row sentences only use names that no kind trusts by default
     bad = {b for b in bad if b not in all_defaults()}
-    # a protocol-0 FunctionNode shows its header name but audits the name in its content: its row says nothing about the header name
+    # a protocol-0 FunctionNode shows (and self-checks) its header name but audits and resolves the name in its content: its row
+    # says nothing about the header name, and its own mark may be "unsafe" while the audit has nothing against it (over-warning,
+    # which C13 does not forbid)
+    shown_not_audited = set()
     try:
         with zipfile.ZipFile(io.BytesIO(data)) as z:
             sch = json.loads(z.read("schema.json"))
-        shown_not_audited = set()
 
         def scan(st):
             if isinstance(st, dict):
@@ -167,7 +169,8 @@ def sentences(got, data, T):
             while j < len(rows) and rows[j].level > r.level:
                 sub.append(rows[j])
                 j += 1
-            off = [x for x in sub if not x.is_self_safe or (not x.val.startswith(("json-type(", "b'", 'b"', "bytearray(")) and x.val in bad)]
+            off = [x for x in sub if (not x.is_self_safe and x.val not in shown_not_audited)
+                   or (not x.val.startswith(("json-type(", "b'", 'b"', "bytearray(")) and x.val in bad)]
             if off:
                 fails.append(f"false-safe: row {r.key}: {r.val} is marked fully safe but {off[0].key}: {off[0].val} beneath it is untrusted")
                 break
